@@ -166,6 +166,9 @@ def lemma3(report, cands):
     pats = [p for p in c02.PATTERNS if "{" not in p and "_Alignof" not in p]
     if checklib.tier() == "quick":
         pats = [p for p in pats if p.count("?") <= 3]
+    # operands that are the first token of a labelled statement (whether a statement follows a label is decided by a
+    # first-token test; the label name y is not an operand)
+    pats += ["y : 1 ?O x ?O x", "y : x ?O 1", "switch ( x ) { case 1 : 1 ?O x ; default : 1 ? x : 1 ; } x ?O 1", "y : y : 1 ?O x ; if ( x ) y : 1 ?O x ; else 1 ?O x"]
     pairs = 0
     for pi, pat in enumerate(pats):
         words = pat.split()
